@@ -10,6 +10,7 @@
 import Emu.Proofs.BtRows
 import Emu.Bt.Server
 import Emu.Proofs.LeafTie.ValidTimestamp
+import Emu.Proofs.MergeInPlace
 
 namespace Emu.Props.C01
 open Emu Emu.Bt Emu.Proofs.BtRow Emu.Proofs.BtInv Emu.Proofs.BtRows
@@ -226,6 +227,24 @@ example :
         [.setCell [102] [113] 1000 [1], .setCell [102] [113] 2000 [2], .setCell [102] [113] 1000 [3],
          .deleteFromColumn [102] [113] true 2000 0]).map (·.cellsOf [102] [113]))
       = some [⟨1000, [3], []⟩] := by decide
+
+/-! ### `scrubRow` works in place
+
+The code compacts `r.Families` (and each family's `Columns`) inside the slice it is ranging over.
+Written with Go's array reads, writes and re-slice, that loop computes exactly the Model's
+`scrubRow` (the function "each family once, … no row that has no cells" is proved about): the write
+index never overtakes the read index. -/
+
+theorem scrubRow_in_place_is_the_models (s : Schema) (r : Row) :
+    Emu.Proofs.MergeInPlace.compactInPlace (fun f : Family =>
+        if s.has f.name = true then (if (scrubFam f).cols.isEmpty = true then none else some (scrubFam f)) else none) r.fams
+      = .ok (scrubRow s r).fams :=
+  Emu.Proofs.MergeInPlace.scrubRow_in_place s r
+
+theorem scrubFam_in_place_is_the_models (cols : List Column) :
+    Emu.Proofs.MergeInPlace.compactInPlace (fun c : Column => if c.cells.isEmpty = true then none else some c) cols
+      = .ok (cols.filter (fun c => !c.cells.isEmpty)) :=
+  Emu.Proofs.MergeInPlace.scrubFam_in_place cols
 
 /-! ### Tie T1: the repository's own text of the timestamp test
 
